@@ -16,6 +16,17 @@ FILES = {'pic.png': PNG, 'other.png': b'\x89PNG' + PNG[::-1], 'sub/deep.jpg': b'
          'tiny.gif': b'GIF89a', 'empty.png': b''}
 
 
+def _noise(n, seed):
+    # incompressible bytes (deflate falls back to stored blocks; members larger than the 32 KiB window matter)
+    import random as _r
+    rnd = _r.Random(seed)
+    return bytes(rnd.getrandbits(8) for _ in range(n))
+
+
+FILES.update({'big40k.png': b'\x89PNG' + _noise(40000, 1), 'big100k.jpg': b'\xff\xd8\xff' + _noise(100000, 2), 'edge32k.png': _noise(32768, 3), 'zeros70k.png': b'\0' * 70000,
+              'three.gif': b'GIF', 'big.css': (b'p{margin:0}\n' * 6000)})
+
+
 def make_dir():
     t = tempfile.mkdtemp(prefix='mmdv-c09-', dir=D.SCRATCH_ROOT)
     os.makedirs(os.path.join(t, 'sub'))
@@ -32,10 +43,11 @@ def gen_src(rng):
     if rng.random() < 0.4:
         meta.append('Author: %s' % rng.choice(['Me', 'A & B <c@d.e>', 'X "Y" Z']))
     if rng.random() < 0.4:
-        meta.append('css: %s' % rng.choice(['style.css', 'x.css', 'missing.css', 'http://example.com/r.css']))
+        meta.append('css: %s' % rng.choice(['style.css', 'x.css', 'missing.css', 'http://example.com/r.css', 'big.css']))
     if rng.random() < 0.2:
         meta.append('language: %s' % rng.choice(['de', 'fr', 'en']))
-    urls = ['pic.png', 'other.png', 'sub/deep.jpg', 'missing.png', 'photo 1.png', 'tiny.gif', 'empty.png', 'http://example.com/remote.png', 'u' * rng.choice([50, 500, 1200]) + '.png', 'pic.png']
+    urls = ['pic.png', 'other.png', 'sub/deep.jpg', 'missing.png', 'photo 1.png', 'tiny.gif', 'empty.png', 'http://example.com/remote.png', 'u' * rng.choice([50, 500, 1200]) + '.png', 'pic.png',
+            'big40k.png', 'big100k.jpg', 'edge32k.png', 'zeros70k.png', 'three.gif']
     nimg = rng.choice([0, 1, 1, 2, 3, 5])
     for i in range(rng.randint(1, 5)):
         r = rng.random()
@@ -58,6 +70,11 @@ def gen_src(rng):
             parts.append('![ref %d][img%d]\n\n[img%d]: %s "rt" width=40px' % (i, i, i, u))
         else:
             parts.append('![alt %d](<%s>)' % (i, u))
+    if rng.random() < 0.3:
+        # everything that is rendered into a list at the end of the main document
+        k = rng.randrange(5)
+        parts.append(['Cited[#c1] and [#c2;].\n\n[#c1]: Doe. *Book*.\n\n[#c2]: Roe. *Paper*.', 'Note[^n1] and inline[^an inline note].\n\n[^n1]: The note.',
+                      'A [?term] here.\n\n[?term]: Its definition.', 'The AB1 abbreviation.\n\n[>AB1]: Abbreviation One', 'Mixed[^m][#c9] [?g].\n\n[^m]: n\n\n[#c9]: c\n\n[?g]: d'][k])
     if rng.random() < 0.25:
         parts.insert(rng.randrange(len(parts) + 1), '{{TOC}}')
     rng.shuffle(parts)
@@ -90,7 +107,7 @@ def check_package(r, s, rng, fname, src, tdir, with_dir):
     fmt = D.FMT[fname]
     ext = D.EXT_CLI
     rq = D.req_to_json('asan', 'ASSETS', fmt, ext, 0, 1 if with_dir else 0, [src, tdir])
-    rep = s.call('asan', 'ASSETS', fmt, ext, 0, 1 if with_dir else 0, [src, tdir], crash_is_violation=False)
+    rep = s.call('asan', 'ASSETS', fmt, ext, 0, 1 if with_dir else 0, [src, tdir], crash_is_violation=True)
     r.evaluations += 1
     if rep is None or rep.status:
         r.stats['crashed/exited (C01/C02 territory)'] += 1
